@@ -1100,3 +1100,75 @@ def rf76(run):
                       'heads of the module\'s functions in an earlier pass over the items: loading the module again pushes the same nodes '
                       'a second time and the list becomes cyclic', line=pushes[0]['l'])
     return 1
+
+
+# ---------------------------------------------------------------------------------------------
+# RF79: an exported data section is published under the name and address of its head item
+# ---------------------------------------------------------------------------------------------
+
+def rf79(run):
+    rule = 'RF79'
+    run.rule(rule, 'MIR_load_module: load_bss_data_section returns the last item of a section and the loop variable is advanced to it.  The '
+                   'export test, the name, the address and the definition handed to setup_global all refer to the section head - a variable '
+                   'initialised from the loop variable at the top of the iteration and never assigned again - not to the advanced loop '
+                   'variable (an exported data item with anonymous continuation items must be published under its own name at its own '
+                   'address)')
+    tu = run.tu('mir')
+    f = tu.func('MIR_load_module')
+    run.functions_analysed.add(('mir', f.name))
+    loops = [l for l in f.walk() if l['k'] == 'ForStmt' and any(y['k'] == 'CallExpr' and y.get('callee') == 'setup_global' for y in F.walk(l))]
+    if len(loops) != 1:
+        raise F.AnalysisBroken('MIR_load_module: the item loop with the setup_global call was not found')
+    loop = loops[0]
+    body = loop['c'][3]
+    # the loop variable and its reassignments in the body
+    init = loop['c'][0]
+    lv = None
+    for x in F.walk(init):
+        if x['k'] == 'DeclStmt':
+            lv = x['decls'][0]['n']
+    if lv is None:
+        raise F.AnalysisBroken('MIR_load_module: loop variable not found')
+    reassigned = [x for x in F.walk(body) if x['k'] == 'BinaryOperator' and x['op'] == '=' and F.src(F.strip(x['c'][0])) == lv]
+    heads = []
+    for st in F.kids(body):
+        if st['k'] == 'DeclStmt':
+            for d in st['decls']:
+                if d.get('init') is not None and F.src(F.strip(d['init'])) == lv and (not reassigned or st['l'] < min(r['l'] for r in reassigned)):
+                    if not any(x['k'] == 'BinaryOperator' and x['op'] == '=' and F.src(F.strip(x['c'][0])) == d['n'] for x in F.walk(body)):
+                        heads.append(d['n'])
+    call = [y for y in F.walk(body) if y['k'] == 'CallExpr' and y.get('callee') == 'setup_global'][0]
+    a = F.call_args(call)
+    guard = None
+    cur = call['i']
+    while cur is not None:
+        p_ = f.parent.get(cur)
+        if p_ is None:
+            break
+        pn = f.nodes[p_]
+        if pn['k'] == 'IfStmt' and 'export_p' in F.src(pn['c'][0]):
+            guard = pn
+            break
+        cur = p_
+    if guard is None:
+        raise F.AnalysisBroken('MIR_load_module: the export_p test around setup_global was not found')
+
+    def base_of(e):
+        e = F.strip(e)
+        while e['k'] in ('MemberExpr',):
+            e = F.strip(e['c'][0])
+        if e['k'] == 'CallExpr' and e.get('callee') == 'MIR_item_name':
+            return base_of(F.call_args(e)[1])
+        return F.src(e)
+    uses = [('export test', base_of(guard['c'][0])), ('name', base_of(a[1])), ('address', base_of(a[2])), ('definition', base_of(a[3]))]
+    n = 0
+    for what, b in uses:
+        n += 1
+        ok = (b in heads) or (not reassigned and b == lv)
+        run.ob(rule, (what,), ok, {'published %s taken from' % what: b, 'section head variable': heads, 'loop variable reassigned at': [r['l'] for r in reassigned]})
+        if not ok:
+            run.violation(rule, f, 'published %s' % what, 'the %s given to the global table comes from `%s`, which after `%s = load_bss_data_section (…)` '
+                          'is the last item of the section: an exported data item followed by anonymous items is %s' %
+                          (what, b, lv, 'not registered at all (the last item has no name and no export flag)' if what in ('export test', 'name', 'definition')
+                           else 'published at the address of its last continuation item'), line=call['l'])
+    return n
